@@ -95,6 +95,8 @@ func checkC05(c *Ctx) {
 	c.confinementAndPublication()
 	c.pruneGuards()
 	teardownOrder(c, "C05")
+	c.everyPacketDecoded()
+	c.flagBitTables()
 }
 
 // deferredRecover: a function deferred in the entry block calls recover().
